@@ -208,12 +208,13 @@ impl Check for C19 {
         "fault_enumeration"
     }
     fn rule(&self) -> String {
-        "case = one generated directory tree (nested and dotted directories, names with spaces / non-ASCII / dots, non-note files, an empty directory, a big note with a hard-linked backup, an already-normalised note, a note without a final newline, a CRLF note) processed by the built `iwe normalize` binary under strace; fault-free run: every *.md holds exactly the in-memory export at the path it was read from, nothing else created / deleted / modified, no write-mode open outside the notes; faulted runs enumerate EVERY file-system syscall the main thread makes from its first write-mode open on (openat, write, close, rename, and whatever else the write path uses: copy_file_range, sendfile, fsync, unlink ...; strace counts per tracee): SIGKILL on entry to each, ENOSPC on each data-moving one, and RLIMIT_FSIZE budgets; a hard link to a note (a backup made with ln) must keep its old content; after each, every note file must hold its complete old or complete new text; distinct = (fault kind, k) crash points".into()
+        "case = one generated directory tree (nested and dotted directories, names with spaces / non-ASCII / dots, non-note files, an empty directory, a big note with a hard-linked backup, an already-normalised note, a note without a final newline, a CRLF note) processed by the built `iwe normalize` binary under strace; fault-free run: every *.md holds exactly the in-memory export at the path it was read from, nothing else created / deleted / modified, no write-mode open outside the notes; faulted runs enumerate EVERY file-system syscall the main thread makes from its first write-mode open on (openat, write, close, rename, and whatever else the write path uses: copy_file_range, sendfile, fsync, unlink ...; strace counts per tracee): SIGKILL on entry to each, ENOSPC on each data-moving one, and RLIMIT_FSIZE budgets; a hard link to a note (a backup made with ln) must keep its old content; after each, every note file must hold its complete old or complete new text; trace specification on the fault-free run: a file renamed over a note was flushed (fsync / fdatasync on its descriptor) before the rename; a private note keeps mode and (run as root) owner, a symbolic-link note stays a link; one case runs projects whose .iwe/config.toml keeps the library in notes/ (complete, partial and unreadable configuration): nothing outside notes/ is touched; distinct = (fault kind, k) crash points".into()
     }
     fn assumptions(&self) -> Vec<String> {
         vec![
             "crash points at syscall granularity (strace fault injection); power-loss reordering of completed writes is out of reach".into(),
             "expected content = Graph::import/export of the tree's texts computed in the harness process".into(),
+            "a write error that a write-behind file system reports only at flush time (NFS, quotas) is not injected; instead the trace must show the flush that would surface it before the note is replaced".into(),
         ]
     }
     fn plan(&self, tier: Tier, _seed: u64) -> Plan {
